@@ -496,11 +496,57 @@ def replay(case):
     return {"reproduced": False, "detail": "unknown kind"}
 
 
+def _replay_noise_factor(case):
+    """deterministic replay: with the normal draw replaced by unit vectors the real code returns the rows of its noise
+    factor A; AᵀA is compared with the configured covariance at the model's noise level and at two small ones"""
+    mp, uu = _mods()
+    if case.get("problem") not in ("dataset", "continuous"):
+        return None
+    m = case["m"]
+    real_normal = np.random.normal
+    worst = (0.0, None)
+    try:
+        for nv in (float(Fraction(from_frac_json(case["noise_var"]))), 1e-6, 1e-8):
+            if not (nv > 0):
+                continue
+            rows = []
+            for j in range(m):
+                def fake(loc=0.0, scale=1.0, size=None, j=j):
+                    X = np.zeros(size)
+                    X[..., j] = 1.0
+                    return X
+                np.random.normal = fake
+                if case["problem"] == "dataset":
+                    prob = mp.ProblemFromDataset(DatasetStub(np.zeros((1, 1)), np.zeros((1, m))), nv)
+                    y = prob.evaluate(np.zeros((1, 1)), noisy=True)
+                else:
+                    class P(mp.ContinuousProblem):
+                        out_dim = m
+
+                        def evaluate_true(self, x):
+                            return np.zeros((len(x), m))
+                    y = P(nv).evaluate(np.zeros((1, 2)), noisy=True)
+                rows.append(np.asarray(y, dtype=float).reshape(-1))
+            Amat = np.array(rows)
+            err = float(np.abs(Amat.T @ Amat - np.eye(m) * nv).max() / nv)
+            if err > worst[0]:
+                worst = (err, nv)
+    except Exception as ex:  # noqa
+        return {"reproduced": True, "detail": "raised " + repr(ex)}
+    finally:
+        np.random.normal = real_normal
+    return {"reproduced": bool(worst[0] > 1e-9), "detail": f"noise factor A read off the real code with unit draws: AᵀA differs from the "
+            f"configured covariance by relative {worst[0]:.3g} at noise_var = {worst[1]}"}
+
+
 def _replay_noise(case):
     """statistical replay of a refuted noise law: sample covariance of 200k draws vs configured"""
     mp, uu = _mods()
     if "problem" not in case:
         return {"reproduced": True, "detail": case.get("detail")}
+    det = _replay_noise_factor(case)
+    if det is not None and det["reproduced"]:
+        return det
     rng_state = np.random.get_state()
     np.random.seed(12345)
     try:
